@@ -260,7 +260,39 @@ func (r *Reach) andCond(p *ssa.BasicBlock, base DNF, cond ssa.Value, neg bool, d
 		}
 		return acc
 	}
+	// a boolean computed earlier as a value (x := a && b && f(); … if ok && !x): the φ lives in a block that
+	// dominates p; the path to p entered that block along exactly one edge
+	if phi, ok := cond.(*ssa.Phi); ok && phi.Block() != p && phi.Block().Dominates(p) && depth < 6 && allBoolish(phi) {
+		pb := phi.Block()
+		var acc DNF
+		for i, q := range pb.Preds {
+			if r.back[[2]int{q.Index, pb.Index}] {
+				continue
+			}
+			in := r.edge(q, pb, depth+1)
+			if in == nil {
+				continue
+			}
+			ci := r.andCond(q, in, phi.Edges[i], neg, depth+1)
+			if ci == nil {
+				continue
+			}
+			acc = or(acc, And(base, ci))
+		}
+		return acc
+	}
 	return base.and(r.key(cond), Lit{V: cond, Neg: neg})
+}
+
+// allBoolish: every incoming value of the φ is a constant or a non-φ value (the shape go/ssa gives to && / || used as values).
+func allBoolish(phi *ssa.Phi) bool {
+	n := 0
+	for _, e := range phi.Edges {
+		if _, isC := e.(*ssa.Const); isC {
+			n++
+		}
+	}
+	return n >= 1 && phi.Comment != "" && (phi.Comment == "&&" || phi.Comment == "||")
 }
 
 // At returns the reaching condition of the block (nil = unreachable).
